@@ -50,7 +50,14 @@ def show(f, rng=None, atom_text=None):
     if k in BINOPS:
         return f'({show(f[1], rng, atom_text)} {sp(k)} {show(f[2], rng, atom_text)})'
     if k in ('S', 'U'):
-        return f'({show(f[1], rng, atom_text)} {k} {show(f[2], rng, atom_text)})'
+        left = show(f[1], rng, atom_text)
+        # the documented grammar makes U, W, V, S, T left-associative on one
+        # level: a left-nested chain may be written without parentheses
+        # (exercises the parser's associativity, seeded change C15-3)
+        if f[1][0] in ('S', 'U') and (rng is None or rng.random() < 0.6):
+            assert left.startswith('(') and left.endswith(')'), left
+            left = left[1:-1]
+        return f'({left} {k} {show(f[2], rng, atom_text)})'
     raise ValueError(f)
 
 
